@@ -54,6 +54,8 @@ def case_tags(case):
                      else 'mutex' if (lo, hi) == (0, 1) else 'cardinality')
         if hi == -1:
             tags.add('star')
+        if lo == hi and n > 1 and lo > 1:
+            tags.add('card-eq')          # [k..k]: may be written in the short form [k]
         if hi > n:
             tags.add('overhi-group' if n > 1 else 'overhi-single')
     for r in m['rels']:
@@ -78,6 +80,8 @@ def case_tags(case):
             tags.add('typed')
         if (f['fclo'], f['fchi']) != (1, 1):
             tags.add('fcard')
+            if f['fclo'] == f['fchi']:
+                tags.add('fcard-eq')     # cardinality [k..k]: may be written in the short form [k]
         if f['attrs']:
             tags.add('attr')
     return sorted(tags)
@@ -934,7 +938,7 @@ def ctc_tags(c):
     return tags
 
 
-UVL_WANTED = ['and-in-or', 'or-in-and', 'implies-in-implies', 'or-in-implies', 'not-in-not', 'chain6', 'chain10', 'dupctc', 'sameshapectc', 'typed', 'fcard', 'star', 'abstract', 'cardinality', 'mutex', 'alternative', 'or', 'mandatory', 'optional',
+UVL_WANTED = ['card-eq', 'fcard-eq', 'and-in-or', 'or-in-and', 'implies-in-implies', 'or-in-implies', 'not-in-not', 'chain6', 'chain10', 'dupctc', 'sameshapectc', 'typed', 'fcard', 'star', 'abstract', 'cardinality', 'mutex', 'alternative', 'or', 'mandatory', 'optional',
               'multi-rel-parent', 'attrval:n', 'attrval:b', 'attrval:i', 'attrval:negint', 'attrval:longdec', 'attrval:d', 'attrval:s', 'attrval:l', 'attrval:m',
               'op:NOT', 'op:AND', 'op:OR', 'op:IMPLIES', 'op:EQUIVALENCE', 'op:EQUALS', 'op:LOWER', 'op:GREATER',
               'op:LOWER_EQUALS', 'op:GREATER_EQUALS', 'op:NOT_EQUALS', 'op:ADD', 'op:SUB', 'op:MUL', 'op:DIV', 'op:SUM', 'op:AVG']
